@@ -199,7 +199,7 @@ FUZZ_TARGETS = {"idem": (_fuzz_idem, lambda c: "%" in c["url"] or " " in c["url"
 def campaigns(tier, seed):
     quick = tier == "quick"
     return [
-        Campaign("idem-coverage-guided", F.fuzz_campaign("idem", runs=(2500, 150000), max_len=72, dictionary=F.URL_DICT, corpus=F.URL_CORPUS), "atheris",
+        Campaign("idem-coverage-guided", F.fuzz_campaign("idem", runs=(2500, 150000), max_len=72, dictionary=F.URL_DICT, corpus=F.URL_CORPUS), F.ENGINE,
                  bounds="libFuzzer over UTF-8 strings <= 72 bytes that ural's preprocessing parses (others skipped); idempotence and the four mode round trips"),
         Campaign("edge-arrangements", _edges, "enumeration", exhaustive=True,
                  bounds="%d URLs x 10 whitespace x 9 control characters x 7 arrangements at the two ends" % len(EDGE_URLS)),
